@@ -138,6 +138,22 @@ func c12Apply(s orb.Simplifier, kind string, generic bool, ls orb.LineString) or
 		// (a member that simplifies to nothing is dropped from its collection: then the plain route below answers)
 		in = ls.Clone()
 	}
+	if kind != "ring" && c12Wrap%3 == 1 && len(in) > 0 {
+		// the line as the middle member of a multi line string, between a closed loop smaller than any threshold and a
+		// two-point line: every member is simplified by itself and stays a member (its ends are kept, so it cannot vanish)
+		loop := orb.LineString{{100, 100}, {100.25, 100}, {100.25, 100.25}, {100, 100}}
+		mls := orb.MultiLineString{loop, in, orb.LineString{{5, 5}, {6, 7}}}
+		var out orb.MultiLineString
+		if generic {
+			out, _ = s.Simplify(mls).(orb.MultiLineString)
+		} else {
+			out = s.MultiLineString(mls)
+		}
+		if len(out) != 3 || len(out[0]) < 2 || out[0][0] != loop[0] || out[0][len(out[0])-1] != loop[3] || len(out[2]) != 2 {
+			return orb.LineString{{-999, -999}} // a member went missing or lost its ends: no model accepts this line
+		}
+		return out[1]
+	}
 	if kind == "ring" {
 		if generic {
 			g := s.Simplify(orb.Ring(in))
@@ -307,7 +323,11 @@ func init() {
 				}
 				emit(ls, "vis", kind, generic, ai, keep, false)
 			default:
-				emit(ls, "vis", kind, generic, ai, 2+c.rng.Intn(5), true)
+				keep := 2 + c.rng.Intn(5)
+				if c.rng.Intn(4) == 0 {
+					keep = 0 // VisvalingamKeep(0): the minimum for the kind (2 for lines, 3 / 4 for open / closed rings)
+				}
+				emit(ls, "vis", kind, generic, ai, keep, true)
 			}
 		}
 	})
